@@ -1703,6 +1703,8 @@ fn main() {
                 use tokio_util::codec::{Decoder, Encoder};
                 let (fs, plen, tlen) = (nums[0] as usize, nums[1] as usize, nums[2] as usize);
                 let more = nums.get(3).copied().unwrap_or(0) == 1;
+                // fifth argument: the transfer carries a delivery state (which every frame has to keep)
+                let with_state = nums.get(4).copied().unwrap_or(0) == 1;
                 let payload: Vec<u8> = (0..plen).map(|i| (i % 251) as u8 + 1).collect();
                 let t = Transfer {
                     handle: Handle(1),
@@ -1712,7 +1714,7 @@ fn main() {
                     settled: None,
                     more,
                     rcv_settle_mode: None,
-                    state: None,
+                    state: if with_state { Some(fe2o3_amqp_types::messaging::DeliveryState::Accepted(fe2o3_amqp_types::messaging::Accepted {})) } else { None },
                     resume: false,
                     aborted: false,
                     batchable: false,
@@ -1727,7 +1729,7 @@ fn main() {
                     let mut src = BytesMut::from(&dst[off..end]);
                     match (FrameDecoder {}).decode(&mut src) {
                         Ok(Some(Frame { body: FrameBody::Transfer { performative, payload }, .. })) => {
-                            frames.push(format!("{{\"len\":{},\"more\":{},\"has_id\":{},\"has_tag\":{},\"has_fmt\":{}}}", end - off, performative.more, performative.delivery_id.is_some(), performative.delivery_tag.is_some(), performative.message_format.is_some()));
+                            frames.push(format!("{{\"len\":{},\"more\":{},\"has_id\":{},\"has_tag\":{},\"has_fmt\":{},\"has_state\":{}}}", end - off, performative.more, performative.delivery_id.is_some(), performative.delivery_tag.is_some(), performative.message_format.is_some(), performative.state.is_some() == with_state));
                             got.extend_from_slice(&payload);
                         }
                         _ => frames.push(format!("{{\"len\":{},\"more\":false,\"has_id\":false,\"has_tag\":false,\"has_fmt\":false,\"undecodable\":true}}", end - off)),
@@ -1829,6 +1831,33 @@ fn main() {
                 });
                 let (opened, last) = opened;
                 format!("{{\"never_opened\":{},\"opened_after_inits\":{:?},\"last_observed\":{:?}}}", opened.is_empty(), opened, last)
+            }
+            // lazy_reader: a LazyValue (the raw bytes of the next value, undecoded) decoded from a slice and from a stream
+            //   must give the same result for the same input
+            "lazy_reader" => {
+                use serde_amqp::lazy::LazyValue;
+                let inputs: Vec<Vec<u8>> = vec![
+                    serde_amqp::to_vec(&"hello".to_string()).unwrap(),
+                    serde_amqp::to_vec(&42u64).unwrap(),
+                    serde_amqp::to_vec(&vec![1u32, 2, 3]).unwrap(),
+                    serde_amqp::to_vec(&fe2o3_amqp_types::messaging::Accepted {}).unwrap(),
+                ];
+                let mut agree = true;
+                let mut detail = Vec::new();
+                for (k, bytes) in inputs.iter().enumerate() {
+                    let a = serde_amqp::from_slice::<LazyValue>(bytes).map(|l| l.as_slice().to_vec());
+                    let b = serde_amqp::from_reader::<LazyValue>(&bytes[..]).map(|l| l.as_slice().to_vec());
+                    let same = match (&a, &b) {
+                        (Ok(x), Ok(y)) => x == y,
+                        (Err(_), Err(_)) => true,
+                        _ => false,
+                    };
+                    if !same {
+                        agree = false;
+                        detail.push(format!("input{}: slice {} / stream {}", k, if a.is_ok() { "ok" } else { "err" }, if b.is_ok() { "ok" } else { "err" }));
+                    }
+                }
+                format!("{{\"agree\":{},\"detail\":{:?}}}", agree, detail)
             }
             "framedec" => {
                 use bytes::BytesMut;
